@@ -444,6 +444,10 @@ def run(prog, rep, tier):
     rep.rule('LABEL-known', 'typestate of leg-label sets: literal labels used on a local tensor '
              'whose complete label set is known (literal transposition, contractions) exist on it')
     check_labels(prog, rep, ['tenpy/networks/mps.py'])
+    from ..flow import check_carried_flags
+    rep.rule('LOOP-carried-flag', 'a flag set under a test inside a loop body and read there is '
+             're-initialised per iteration')
+    check_carried_flags(prog, rep, ['tenpy/networks/mps.py'])
     return rep.finish(
         level='other',
         explanation='Canonical-form bookkeeping decided on direct flows: %d set_B sites whose '
